@@ -7,18 +7,20 @@ from .model import TargetModel
 H = extract.HOST
 HR = H + "@release"          # host triple compiled without debug assertions / overflow checks
 A64L = "aarch64-unknown-linux-gnu"
+A64M = "aarch64-apple-darwin"       # macOS: long entry form, write alias, jit write protection
+WIN = "x86_64-pc-windows-msvc"      # Windows: VirtualAlloc/VirtualProtect/FlushInstructionCache paths
 ARM = "armv7-unknown-linux-gnueabihf"
 
 TARGETS = {
     # property -> (quick targets, thorough targets)
-    "C01": ([H, A64L, ARM, HR], list(extract.ALL_TARGETS) + [HR]),
+    "C01": ([H, A64L, ARM, HR, A64M, WIN], list(extract.ALL_TARGETS) + [HR]),
     "C16": ([ARM], [ARM, "thumbv7neon-unknown-linux-gnueabihf"]),
-    "C13": ([H, A64L, ARM, HR], list(extract.ALL_TARGETS) + [HR]),
-    "C02": ([H, A64L, ARM, HR], list(extract.ALL_TARGETS) + [HR]),
-    "C03": ([H, A64L, ARM, HR], list(extract.ALL_TARGETS) + [HR]),
-    "C12": ([H, A64L, HR], list(extract.ALL_TARGETS) + [HR]),
-    "C17": ([H, A64L, HR], list(extract.ALL_TARGETS) + [HR]),
-    "C11": ([H, A64L, HR], [t for t in extract.ALL_TARGETS if "arm" not in t.split("-")[0] and "thumb" not in t] + [HR]),
+    "C13": ([H, A64L, ARM, HR, A64M], list(extract.ALL_TARGETS) + [HR]),
+    "C02": ([H, A64L, ARM, HR, A64M, WIN], list(extract.ALL_TARGETS) + [HR]),
+    "C03": ([H, A64L, ARM, HR, A64M, WIN], list(extract.ALL_TARGETS) + [HR]),
+    "C12": ([H, A64L, HR, A64M, WIN], list(extract.ALL_TARGETS) + [HR]),
+    "C17": ([H, A64L, HR, A64M, WIN], list(extract.ALL_TARGETS) + [HR]),
+    "C11": ([H, A64L, HR, A64M, WIN], [t for t in extract.ALL_TARGETS if "arm" not in t.split("-")[0] and "thumb" not in t] + [HR]),
     "C04": ([H, HR], list(extract.ALL_TARGETS) + [HR]),
     "C05": ([H, "x86_64-pc-windows-msvc", HR], list(extract.ALL_TARGETS) + [HR]),
     "C06": ([H, HR], [H, HR]),
@@ -26,7 +28,7 @@ TARGETS = {
     "C08": ([H, HR], [H, HR]),
     "C09": ([H, HR], [H, HR]),
     "C14": ([H], [H, A64L, ARM]),
-    "C10": ([H, A64L, ARM, HR], list(extract.ALL_TARGETS) + [HR]),
+    "C10": ([H, A64L, ARM, HR, A64M], list(extract.ALL_TARGETS) + [HR]),
     "C15": ([A64L, "aarch64-apple-darwin"], [A64L, "aarch64-apple-darwin", "aarch64-pc-windows-msvc"]),
 }
 
